@@ -431,6 +431,14 @@ impl SettingId {
         )
     }
 
+    /// Returns if the only values of a setting are 0 and 1
+    fn is_boolean(self) -> bool {
+        matches!(
+            self,
+            SettingId::ENABLE_CONNECT_PROTOCOL | SettingId::H3_DATAGRAM
+        )
+    }
+
     /// Returns if a Settings Identifier is forbidden
     fn is_forbidden(&self) -> bool {
         //= https://www.rfc-editor.org/rfc/rfc9114#section-7.2.4.1
@@ -578,6 +586,14 @@ impl Settings {
                 //# (Section 11.2.2).  These reserved settings MUST NOT be sent, and
                 //# their receipt MUST be treated as a connection error of type
                 //# H3_SETTINGS_ERROR.
+
+                // RFC 9297 section 2.1.1 (SETTINGS_H3_DATAGRAM) and RFC 8441 section 3 / RFC 9220
+                // section 3 (SETTINGS_ENABLE_CONNECT_PROTOCOL): the value MUST be 0 or 1, any
+                // other value is a connection error of type H3_SETTINGS_ERROR, it must not be
+                // taken for "enabled".
+                if identifier.is_boolean() && value > 1 {
+                    return Err(SettingsError::InvalidSettingValue(identifier, value));
+                }
                 settings.insert(identifier, value)?;
             } else {
                 //= https://www.rfc-editor.org/rfc/rfc9114#section-7.2.4.1
